@@ -97,3 +97,33 @@ pub mod net {
         }
     }
 }
+
+
+pub mod task {
+    /// the stand-in has no worker pool: the closure runs inline
+    pub fn block_in_place<F: FnOnce() -> R, R>(f: F) -> R {
+        f()
+    }
+}
+
+pub mod time {
+    pub use std::time::Duration;
+    /// completes immediately (the real call only waits for a background fsync)
+    pub fn sleep(_d: Duration) -> std::future::Ready<()> {
+        std::future::ready(())
+    }
+}
+
+pub mod sync {
+    /// uncontended stand-in: `lock()` is ready at once (the harness is single-threaded)
+    #[derive(Debug, Default)]
+    pub struct Mutex<T>(std::sync::Mutex<T>);
+    impl<T> Mutex<T> {
+        pub fn new(v: T) -> Self {
+            Mutex(std::sync::Mutex::new(v))
+        }
+        pub fn lock(&self) -> std::future::Ready<std::sync::MutexGuard<'_, T>> {
+            std::future::ready(self.0.lock().unwrap_or_else(|e| e.into_inner()))
+        }
+    }
+}
